@@ -23,6 +23,17 @@ def gen(chk, per_font):
             f = l.split()
             if f and not l.startswith('#'):
                 cases.append('k%d shape %s' % (len(cases), ' '.join(f))); meta.append(dict(font=f[0], dir=int(f[4]), nb=sum(1 for x in f if x.startswith('break:'))))
+    # systematic family: five plain characters, every set of cuts, every direction value, every line justified with default first/last
+    import itertools
+    for font, txt in (('Padauk.ttf', [0x61, 0x62, 0x63, 0x64, 0x65]), ('Scheherazadegr.ttf', [0x628, 0x62f, 0x631, 0x648, 0x627]), ('charis_r_gr.ttf', [0x61, 0x62, 0x63, 0x64, 0x65])):
+        for r in range(0, 4):
+            for breaks in itertools.combinations(range(1, 5), r):
+                for d in range(8):
+                    if per_font < 100 and rng.random() < 0.5:
+                        continue
+                    ops = ['dump', 'jtrace'] + ['break:%d' % b for b in breaks] + ['just:%d:%s:0:-:-' % (l, rng.choice(('3000', '-1', '600'))) for l in range(len(breaks) + 1)]
+                    cases.append(S.case_line('s%d' % len(cases), font, S.encode(txt, 32), 32, dir_=d, ppm=rng.choice(('-', '12')), ops=ops))
+                    meta.append(dict(font=font, dir=d, nb=len(breaks)))
     for font in S.FONTS:
         rep = S.repertoire(vlib.REPO, font)
         for i in range(per_font):
@@ -86,8 +97,23 @@ def run(chk):
             continue
         bad = [p for p in parts[1:] if p.startswith('just ') and p.split()[1] not in ('ok', 'skip')]
         if bad:
-            key = 'c19:' + kc if kc else 'c19:%s:%s' % (bad[0].split()[1].split('(')[0], ' '.join(c.split()[2:14])[:160])
-            chk.violation(key, 'after linebreak/justify a line is no longer the same well-formed chain: %s' % bad[0][:120], dict(case=c, got=i[:1500]))
+            # which line was being justified and which line came out damaged: the recorded defects reverse the chain headed by the
+            # segment's first slot (F15: the first line, whichever line is justified) or by the justified line's head (F16: that line)
+            jops = [o for o in c.split()[10:] if o.startswith('just:')]
+            jres = [p for p in parts[1:] if p.startswith('just ')]
+            li = bl = None
+            for o, p in zip(jops, jres):
+                if p.split()[1] not in ('ok', 'skip'):
+                    v = p.split()[1]
+                    try:
+                        li = int(o.split(':')[1]); bl = int(v[4:v.index(':')])
+                    except ValueError:
+                        pass
+                    break
+            expected = kc is not None and li is not None and (bl == li or (bl == 0 and kc == 'justify-reverses-when-direction-differs-from-font'))
+            key = 'c19:' + kc if expected else 'c19:%s:%s' % (bad[0].split()[1].split('(')[0], ' '.join(c.split()[2:14])[:160])
+            chk.violation(key, 'after linebreak/justify a line is no longer the same well-formed chain: %s%s' % (bad[0][:120], '' if expected or kc is None else
+                          ' (justifying line %s damaged line %s: not the signature of the recorded defect)' % (li, bl)), dict(case=c, got=i[:1500]))
         mres = (m or '').split()
         if kc is None and (len(mres) < 3 or mres[2] not in ('ok', 'none')):
             ndis += 1
